@@ -200,6 +200,10 @@ class SymbolFinder:
 		Returns:
 			イテレーター
 		"""
+		# 名前を持たないノード(Noneの添え字等)に対応するシンボルは存在しない
+		if len(domain_name) == 0:
+			return
+
 		for scope in scopes:
 			fullyname = scope.join(domain_name).dsn
 			if fullyname in db:
